@@ -4,7 +4,7 @@
 cd /verif
 J=6
 if [ "$1" = "-j" ]; then J=$2; shift 2; fi
-IDS=$(python3 -c "import json;print(' '.join(c['property_id'] for c in json.load(open('MANIFEST.json'))['checks']))")
+IDS=${BENIGN_IDS:-$(python3 -c "import json;print(' '.join(c['property_id'] for c in json.load(open('MANIFEST.json'))['checks']))")}
 run_one() {
   p=$1; n=$(basename $p .diff)
   d=$(mktemp -d /tmp/verif-benign.XXXXXX)
